@@ -392,41 +392,45 @@ def gen_feat(rnd, pool):
                                  'int("1", bas=2)', 'json.encode_indent({}, prefx="")', 'json.indent("{}", indnt="")', 'time.time(yeer=2000)',
                                  'time.time(year=2000, mont=1)', 'json.decode("1", defaultt=1)', '"{a}".format(b=1)', 'getattr("", "x", defalt=1)',
                                  'range(1, stpe=2)', 'time.parse_time("x", formt="y")', 'time.from_timestamp(1, nsecc=2)', 'dict([], **{"a": 1}).pop("b", defaul=1)']))
-    elif tail < 0.36:    # undefined name with near misses among locals, globals and predeclared names
+    elif tail < 0.40:    # undefined name with near misses among locals, globals and predeclared names
         base = rnd.choice(IDENT)
-        cands = list({misspell(rnd, base) for _ in range(4)} - {base})
-        rnd.shuffle(cands)
-        for i, c in enumerate(cands[:3]):
-            lines.insert(rnd.randrange(len(lines) + 1), "%s = %d" % (c, i))
         k = rnd.random()
-        if k < 0.55:
-            # several function-local names at the same edit distance (the resolver collects them from Go maps)
+        if k < 0.6:
+            # several function-local names at the same edit distance and nothing nearer: the resolver
+            # collects the candidates from Go maps, so only its sort makes the hint a function of the program
             loc = [base + x for x in rnd.sample(["_a", "_b", "_c", "_d", "x", "y", "z", "1", "2"], rnd.randint(2, 6))]
             if rnd.random() < 0.5:
                 lines.append("def uses(%s):\n    %s = 0\n    return %s" % (", ".join(loc[:-1]), loc[-1], base))
-            else:
+            elif len(loc) >= 4:
                 lines.append("def outer(%s):\n    def uses(%s):\n        return [%s for %s in []]\n    return uses" % (
                     ", ".join(loc[:2]), ", ".join(loc[2:-1]), base, loc[-1]))
-        elif k < 0.75:
-            lines.append("def uses():\n    %s = 1\n    return %s" % (cands[-1], base))
+            else:
+                lines.append("def uses(%s):\n    return lambda %s: %s" % (loc[0], ", ".join(loc[1:]), base))
         else:
-            lines.append("print(%s)" % base)
+            cands = list({misspell(rnd, base) for _ in range(4)} - {base})
+            rnd.shuffle(cands)
+            for i, c in enumerate(cands[:3]):
+                lines.insert(rnd.randrange(len(lines) + 1), "%s = %d" % (c, i))
+            if k < 0.8:
+                lines.append("def uses():\n    %s = 1\n    return %s" % (cands[-1], base))
+            else:
+                lines.append("print(%s)" % base)
         if rnd.random() < 0.3:
             lines.append("print(%s)" % misspell(rnd, rnd.choice(["SHARED_D", "struct", "trace", "json"])))
-    elif tail < 0.40:    # load: name not found in the module
+    elif tail < 0.45:    # load: name not found in the module
         base = rnd.choice(IDENT)
         ns = sorted({base + "_1", base + "_2", misspell(rnd, base), rnd.choice(IDENT) + "_z"})
         mods["m.star"] = "".join("%s = %d\n" % (n, i) for i, n in enumerate(ns)) + "print('module m loaded', %s)\n" % L()
         lines.insert(0, 'load("m.star", %s)' % ", ".join(q(n) for n in [ns[0], misspell(rnd, base)]))
-    elif tail < 0.45:    # load that works, then use
+    elif tail < 0.50:    # load that works, then use
         ns = names(3)
         mods["m.star"] = "".join("%s = {%s: %d}\n" % (n, L(), i) for i, n in enumerate(ns)) + "def mf(x): return [x, %s]\n" % ns[0]
         lines.insert(0, 'load("m.star", "mf", %s)' % ", ".join(q(n) for n in ns[:2]))
         lines.append("print(mf(%s), %s)" % (ns[0], ns[1]))
-    elif tail < 0.50:    # frozen shared values
+    elif tail < 0.55:    # frozen shared values
         lines.append(rnd.choice(["SHARED_D[%s] = 1" % L(), "SHARED_L.append(1)", "SHARED_S.add(1)", "SHARED_ST.shared_dictionary.clear()", "SHARED_D.pop(%s)" % L(),
                                  "SHARED_S.pop()", "SHARED_L.clear()", "x = SHARED_D\nx |= {1: 2}"]))
-    elif tail < 0.56:    # dynamic failures carrying rendered values
+    elif tail < 0.61:    # dynamic failures carrying rendered values
         lines.append(rnd.choice(['fail("boom", {%s: 1, %s: 2}, set([%s, %s]))' % (L(), L(), L(), L()), "{%s: 1}[%s]" % (L(), L()), "{1: 1, 1.0: 2}",
                                  "{[]: 1}", "set([{}])", "[1, 2][5]", '"abc".index("z")', "1 // 0", "int('zz')", "set([%s]).remove(%s)" % (L(), L()),
                                  "{}.popitem()", "[x for x in range(1 << 40)]", "for k in SHARED_D: SHARED_D[k] = 1",
@@ -434,10 +438,10 @@ def gen_feat(rnd, pool):
                                  "struct(a=1) + struct(a=2) < 1", "struct(a=1).a = 2", "hash(1)", "json.encode({1: 2})", "json.decode('{\"a\": 1, \"a\": 2}')",
                                  "json.decode('[1, 2')", 'time.parse_duration("1x")', "time.time(year=1, monthh=2)"]))
         steps = rnd.choice([0, 0, 2000, 20000])
-    elif tail < 0.58:    # unbounded recursion stopped by the step budget: a deep backtrace
+    elif tail < 0.63:    # unbounded recursion stopped by the step budget: a deep backtrace
         lines.append(rnd.choice(["def rec(n): return rec(n + 1)\nrec(0)", "def ra(n): return rb(n) + 1\ndef rb(n): return ra([n])\nra(0)"]))
         steps = rnd.choice([500, 3000])
-    elif tail < 0.64:    # step budget exhausted at a deterministic point
+    elif tail < 0.68:    # step budget exhausted at a deterministic point
         lines.append(rnd.choice(["n = 0\nwhile True: n += 1", "for i in range(1 << 30): pass", "def loop(n):\n    for i in range(n):\n        for j in range(n): pass\nloop(100000)",
                                  "big = [i for i in range(1000000)]"]))
         steps = rnd.choice([500, 5000, 50000])
